@@ -10,7 +10,9 @@ OFF = 63  # input slot holding a value offset (gives non-try programs more than 
 
 
 def slot(b, k):
-    return b * MAXD + k
+    # wide programs (more than 15 branches) wrap around: the reference is rendered from the same Program, so a shared fault slot
+    # simply makes several positions fail together in both
+    return (b * MAXD + k) % 60  # 61 is vrt's PANIC_SLOT, 63 the offset slot
 
 
 def payload(b, k):
